@@ -125,6 +125,10 @@ def build(unit, repo=REPO, features=()):
     registry = []
     extract.FEATURES = set(features)
     extract.LITERALS.clear()
+    extract.AUTOENS.clear()
+    extract.CURRENT_UNIT = unit + ("[" + ",".join(features) + "]" if features else "")
+    if extract.CLOSURE_SNAPSHOT is None and not os.environ.get("VERIF_NO_CLOSURE_SNAPSHOT"):
+        extract.load_closure_snapshot(VERIF)
     tpl = os.path.join(VERIF, "units", unit + ".rs")
     pieces = extract.expand(tpl, repo, VERIF, registry)
     text, linemap, marks = extract.assemble(pieces)
